@@ -88,6 +88,10 @@ def run_serve(c, prop, shards, what, conform=False):
                 f.write(data)
             s = {"served": data.count(b'"ev":"Serve"'), "configs": data.count(b'"ev":"Config"'), "preflights": 1, "panics": 0, "rejected": 0, "samples": []}
         bad, res = c.validate_trace("TraceServe", SERVE_CFG % prop, trace, tag="TraceServe_%s_%d" % (prop, k))
+        if s.get("hung") and not bad:
+            # the run was cut short by a call into the library that never returned and that this property's predicate does not
+            # judge: no verdict
+            raise Infra("the serve driver stopped early: %s" % s.get("hang", "a re-entrant handler never returned"))
         evs = read_ndjson(trace) if (bad or res.get("known")) else None
         if conform:
             # full conformance of the request-handling model (Cors!Respond + ReqParse + Acrh) with the recorded responses
